@@ -20,15 +20,15 @@ CHECKS["C19"] = {
 }
 
 CHECKS["C01"] = {
-    "pkg": "./c01", "run": "^TestC01$", "level": "exploration",
+    "pkg": "./c01", "run": "^TestC01", "level": "exploration", "mem_gb": {"quick": 0, "thorough": 0},
     "technique": "runtime monitor: reference map id->(vector,metadata) checked against every Search result over seeded insert/remove/update/snapshot histories",
     "level_text": "Reference-model monitor over thousands (quick) to hundreds of thousands (thorough) of seeded histories with generated index parameters; every Search result is checked for liveness, metadata, bit-exact score, order, uniqueness, size and non-emptiness. Held means no observed result violated the property.",
-    "level_note": "Sequential histories on one index (concurrency is C13, dataset-level merge is C09); NaN-producing inputs excluded (C12); the index dump hook is used only to classify failures.",
+    "level_note": "Sequential histories on one index, plus a smaller number of write histories through the Dataset API of in-process clusters (1..3 nodes, replicas quiescent before each search round) judged by the same oracle; concurrency is C13, exactness of the dataset merge is C09; NaN-producing inputs excluded (C12); the index dump hook is used only to classify failures.",
     "shards": {"quick": 8, "thorough": 16},
     "timeout": {"quick": 600, "thorough": 3000},
     "rule": "case c of VERIF_SEED = generated config (M 2..16, ef/efConstruction 1..40, simple/heuristic x extendCandidates x keepPruned, 3 metrics, dim 1..16, levels 0..5, integer or float coordinates) + history of <=60 ops (thorough also 2000-op histories) of insert / remove (biased to the entry point) / update / save+load, each followed by 1-3 searches (random, stored and just-removed queries, k in 1..n+2); non-trivial = >=1 successful removal and >=1 non-empty search result; distinct = digest of (config, op list)",
     "assumptions": ["space.Distance is deterministic for identical arguments", "zero vectors under cosine excluded"],
-    "min": {"any": {"searches_checked": 10000, "removals": 1000}},
+    "min": {"any": {"searches_checked": 10000, "removals": 1000, "dataset_searches_checked": 100}},
 }
 
 CHECKS["C07"] = {
@@ -182,7 +182,7 @@ CHECKS["C11"] = {
     "timeout": {"quick": 900, "thorough": 3400},
     "rule": "case c = topology (1..3 nodes, 1..4 partitions, replication 1..2); 12 acks, 6 dimension cases, 6 batch maps, forced and concurrent caller sequences; all non-trivial; distinct = digest of the topology",
     "assumptions": ["error identity across the gRPC proxy is compared on the message text"],
-    "min": {"any": {"acks_checked": 30, "caller_outcomes_checked": 500, "batch_maps_checked": 10, "unreachable_owner_writes": 3}},
+    "min": {"any": {"acks_checked": 30, "caller_outcomes_checked": 500, "batch_maps_checked": 10, "unreachable_owner_writes": 3, "no_quorum_writes": 4}},
 }
 
 CHECKS["C03"] = {
@@ -257,10 +257,10 @@ CHECKS["C12"] = {
     "aux": [{"pkg": "github.com/marekgalovic/anndb/cmd/anndb", "name": "anndb", "env": "VERIF_ANNDB_BIN", "tags": "verif"}],
     "technique": "runtime monitor on real cmd/anndb processes: liveness (process alive, List answers, valid requests served) after every hostile request class, and again after kill -9 + restart on the same data directory (log replay)",
     "level_text": "Every request class (malformed ids of length 0/15/17/1000 on every RPC that takes one, unknown datasets and partitions, degenerate create parameters, empty and wrong-dimension vectors incl. the unvalidated PartitionBatch* path, NaN/Inf/subnormal/huge/zero coordinates under each metric, k = 0 / 2^20 / 2^32-1, over-long metadata, batches of 0/100/101/10000 items, duplicate and mixed batches) gets a freshly started real server with valid data; after the request the process must be alive, answer List and serve a valid insert+search, and after SIGKILL + restart it must replay its log, answer and serve again.",
-    "level_note": "Well-typed protobuf requests only; single-node servers (a poisoned entry kills every replica the same way); quick runs a seed-determined third of the classes, thorough all of them; server address space is capped at 25 GB so a runaway allocation ends the server.",
+    "level_note": "Well-typed protobuf requests only; single-node servers (a poisoned entry kills every replica the same way); both tiers run every class; server address space is capped at 25 GB so a runaway allocation ends the server.",
     "shards": {"quick": 8, "thorough": 16},
     "timeout": {"quick": 900, "thorough": 3400},
     "rule": "case = request class (RPC x input class); non-trivial = the class ran to a verdict; distinct = class name",
     "assumptions": ["the server binary is built from /repo's working tree by the driver (go build ./cmd/anndb)"],
-    "min": {"any": {"classes_run": 20}},
+    "min": {"any": {"classes_run": 100}},
 }
